@@ -22,7 +22,7 @@ func init() {
 	}
 	Props["C03"] = &PropSpec{
 		Level: "other",
-		Rules: []string{"R07", "R02", "R09"},
+		Rules: []string{"R07", "R02", "R09", "R43"},
 		Explanation: "For all inputs: every output coordinate is ToGeomPoint of the intCentroid of a stored Quadrant; intCentroid/intExtent are written only from getQuadrantExtentAndCentroid, index-aligned (R07); its x and y formulas are mirror images (R02); both copies of the level arithmetic agree and use the root tile width and the constant 16 (R09).",
 		Decided: []string{"provenance of every output coordinate (R07)", "x/y symmetry of the pixel extent and centre formulas (R02)", "level = id + log2(tile width) + log2(16) in both places (R09)"},
 		NotDecided: []string{"the arithmetic itself (min + idx*span + span/2; deepestRes = XSpan/2^level)", "the bound by the reported deviation for grids that do not divide evenly"},
@@ -100,7 +100,7 @@ func init() {
 	}
 	Props["C15"] = &PropSpec{
 		Level: "other",
-		Rules: []string{"R02", "R42"},
+		Rules: []string{"R02", "R42", "R44"},
 		Explanation: "Pairing clauses for all tile matrix sets: width-flavoured operands only on the x side and height-flavoured only on the y side in FromNative, ToNative, MatrixSize, MatrixBoundingBox (R02); identical corner-of-origin case analysis (default falls through to TopLeft; BottomLeft) and sign convention in the three functions; one common ToXYPoint for the origin (R42).",
 		Decided:     []string{"operand pairing (R02)", "corner-of-origin agreement (R42)"},
 		NotDecided:  []string{"rounding (9 decimals) versus unrounded division at tile borders", "content of the EPSG axis table"},
